@@ -72,3 +72,9 @@ package common
 //@   loop 0 invariant forall e: T :: has(s, e) <==> (exists k :: 0 <= k && k < $i && l1[k] == e)
 //@   loop 1 invariant forall e: T :: in(e, r) <==> (in(e, l1) && (exists k :: 0 <= k && k < $i && l2[k] == e))
 //@ end
+
+//@ func AlmostEqual
+//@   props C20
+//@   float ideal
+//@   ensures r0 <==> (x == y || abs(x - y) <= absTol)
+//@ end
